@@ -5,7 +5,7 @@ from .. import flow, tlc
 from ..common import workdir
 
 
-QC_CFG = """SPECIFICATION Spec
+QC_CFG = """SPECIFICATION %(spec)s
 CONSTANTS
   NMsg = %(nmsg)d
   NRcpt = %(nrcpt)d
@@ -27,6 +27,7 @@ INVARIANT C03_GetExact
 INVARIANT C01_RemovedOnlySettled
 INVARIANT C13_FailedBounced
 INVARIANT C12_Known
+%(props)s
 CHECK_DEADLOCK FALSE
 """
 
@@ -36,6 +37,10 @@ QC = {
     'b': dict(nmsg=1, nrcpt=2, indexlog='TRUE', yields='TRUE', backoff='B0N', maxtime=1, flushes=1, ann=1, loads=1),
     'c0': dict(nmsg=2, nrcpt=2, indexlog='TRUE', yields='TRUE', backoff='B01N', maxtime=1, flushes=1, ann=0, loads=1),
     'd23': dict(nmsg=1, nrcpt=1, indexlog='FALSE', yields='TRUE', backoff='B01N', maxtime=1, flushes=0, ann=1, loads=0),
+    'live1': dict(nmsg=1, nrcpt=2, indexlog='TRUE', yields='TRUE', backoff='B0N', maxtime=1, flushes=0, ann=0, loads=0,
+                  spec='FairSpec', props='PROPERTY C01_EventuallySettled'),
+    'live2': dict(nmsg=2, nrcpt=1, indexlog='FALSE', yields='TRUE', backoff='B01N', maxtime=2, flushes=1, ann=0, loads=0,
+                  spec='FairSpec', props='PROPERTY C01_EventuallySettled'),
     'kf1': dict(nmsg=1, nrcpt=3, indexlog='TRUE', yields='FALSE', backoff='B00N', maxtime=1, flushes=0, ann=0, loads=0, kf1='TRUE'),
     'kf2': dict(nmsg=1, nrcpt=2, indexlog='TRUE', yields='TRUE', backoff='B0N', maxtime=1, flushes=0, ann=0, loads=0, kf2='TRUE'),
     'kf3': dict(nmsg=1, nrcpt=1, indexlog='FALSE', yields='TRUE', backoff='B0N', maxtime=1, flushes=0, ann=1, loads=1, kf3='TRUE'),
@@ -47,6 +52,8 @@ QC_TEXT = {
     'b': 'QueueCore 1 msg x 2 rcpt, yielding index-log backend, flush + announcement + load',
     'c0': 'QueueCore 2 msgs x 2 rcpt, yielding index-log backend, flush + load, backoff 0/1',
     'd23': 'QueueCore duplicate announcement while a dequeue is in flight (known finding D23: early retry) - TLC must find it',
+    'live1': 'QueueCore liveness under weak fairness: every accepted message is eventually settled (1 msg x 2 rcpt)',
+    'live2': 'QueueCore liveness under weak fairness with flush (2 msgs, backoff 0/1)',
     'kf1': 'deviation KF_GlobalSort (D2 as found): TLC must find the wrong-recipient counterexample',
     'kf2': 'deviation KF_RequeueEarly (D18 as found): TLC must find the re-send',
     'kf3': 'deviation KF_EarlyRelease (D16 as found): TLC must find the second attempt',
@@ -57,7 +64,7 @@ QC_TEXT = {
 def qc_jobs(wd, names):
     jobs = []
     for n in names:
-        d = dict(kf1='FALSE', kf2='FALSE', kf3='FALSE', kf4='FALSE')
+        d = dict(kf1='FALSE', kf2='FALSE', kf3='FALSE', kf4='FALSE', spec='Spec', props='')
         d.update(QC[n])
         job = {'name': QC_TEXT[n], 'module': 'MC_QueueCore', 'cfg': flow.write_cfg(wd, 'qc_%s.cfg' % n, QC_CFG % d), 'timeout': 3000}
         if n.startswith('kf') or n == 'd23':
